@@ -184,6 +184,10 @@ class SymWorld(World):
         """numeric numpy array of a result that carries no symbolic value (raises otherwise)"""
         return arrays.concrete(x)
 
+    def no_ite_pruning(self):
+        """do not ask the solver whether each if-then-else condition is already decided by the path (many clip/min atoms)"""
+        core.PRUNE_ITE[0] = False
+
     def float_constants(self):
         """sqrt of concrete numbers stays a float (as in numpy) instead of an exact algebraic atom: for harnesses whose
         obligations carry a tolerance anyway"""
@@ -242,6 +246,41 @@ class SymWorld(World):
             s.pop()
             s.set('timeout', core.TIMEOUT_MS[0])
 
+    def sample(self, tries=12):
+        """A 'generic' point of the current path: random input values within their declared bounds that satisfy the
+        assumptions and the path condition (checked numerically); the solver is asked only if sampling fails.
+        -> (values {name: [num, den]}, Env) or None"""
+        c = core.ctx()
+        rng = self.rng
+        names = [(nm, v) for nm, v in self.inputs.items() if v.id in c.ensured]
+        for _ in range(tries):
+            vals, d = {}, {}
+            for nm, v in names:
+                info = v.info or {}
+                lo, hi = info.get('lo'), info.get('hi')
+                if v.sort == 'I':
+                    a = -3 if lo is None else max(lo, -(1 << 16))
+                    b = (a + 6) if hi is None else min(hi, a + 64)
+                    q = Fraction(rng.randint(int(a), int(max(a, b))))
+                else:
+                    a = Fraction(lo) if lo is not None else (Fraction(1, 32) if info.get('pos') else (Fraction(0) if info.get('nonneg') else Fraction(-3)))
+                    b = Fraction(hi) if hi is not None else a + 3
+                    q = a + (b - a) * Fraction(rng.randint(1, 95), 96)
+                    if info.get('nz') and q == 0:
+                        q = Fraction(1, 2)
+                vals[nm] = [q.numerator, q.denominator]
+                d[v.id] = float(q)
+            env = core.Env(d)
+            try:
+                if all(core.eval_z3(f, env) for f in c.assumed) and all(core.eval_z3(f, env) for f in c.pc):
+                    return vals, env
+            except (KeyError, ZeroDivisionError, OverflowError, ValueError, SymxUnsupported, AttributeError):
+                continue
+        m = self.random_model()
+        if m is None:
+            return None
+        return self.model_inputs(m), self.env_of(m)
+
     def env_of(self, m):
         c = core.ctx()
         d = {}
@@ -263,22 +302,32 @@ class SymWorld(World):
         if cls in self.failed_classes:
             self._record(name, 'skipped-after-sat')
             return
-        # 1. generic models of the path, filtered numerically: cheap witnesses for non-identities
+        # 1. a quick look by the solver: most obligations that hold are unsat within a second
+        c.solver.set('timeout', 1500)
+        try:
+            r0, _m0 = c.model(neg)
+        finally:
+            c.solver.set('timeout', core.TIMEOUT_MS[0])
+        if r0 == 'unsat':
+            self._record(name, 'unsat')
+            return
+        # 2. generic points of the path, filtered numerically (true cos/sin/sqrt): cheap witnesses for non-identities
         if numcheck is not None:
             for attempt in range(2):
-                m = self.random_model()
-                if m is None:
+                sm = self.sample()
+                if sm is None:
                     break
+                vals, env = sm
                 try:
-                    bad = numcheck(self.env_of(m))
+                    bad = numcheck(env)
                 except (KeyError, ZeroDivisionError, OverflowError, ValueError, SymxUnsupported):
                     bad = False
                 if bad:
                     self.numeric_hits += 1
                     self.failed_classes.add(cls)
-                    self._record(name, 'sat', self.model_inputs(m))
+                    self._record(name, 'sat', vals)
                     return
-        # 2. the solver decides
+        # 3. the solver decides (full budget)
         r, m = c.model(neg)
         if r == 'unsat':
             self._record(name, 'unsat')
@@ -516,7 +565,12 @@ class ConcWorld(World):
     def zeros(self, shape, complex_=False): return rnp.zeros(shape, dtype=complex if complex_ else float)
     def is_true(self, cond): return bool(cond)
     def concrete(self, x): return rnp.asarray(x)
+    def no_ite_pruning(self):
+        """do not ask the solver whether each if-then-else condition is already decided by the path (many clip/min atoms)"""
+        core.PRUNE_ITE[0] = False
+
     def float_constants(self): pass
+    def no_ite_pruning(self): pass
     def pi(self): return math.pi
 
     def _record(self, name, status, detail=None):
